@@ -1292,6 +1292,59 @@ func bt5SizeBookkeeping(p *core.Prog, rep *core.Report) {
 		}
 	}
 	// (b), (c)
+	// reset events: a direct reset of the staged slice, or a call of a Batch method that contains one; a Batch method that
+	// hands the staged records to the data file but contains no reset event at all is a pure writer (the flush was split
+	// into a writing and an applying half): the obligation to reset then lies with whoever calls it
+	directReset := func(in ssa.Instruction) bool {
+		if f, _, val := core.StoreField(in); f == R.BatchStaged {
+			if _, isCall := val.(*ssa.Call); !isCall {
+				return true
+			}
+		}
+		return false
+	}
+	resetFns := map[*ssa.Function]bool{}
+	for _, fn := range p.LibFuncs() {
+		if core.RecvNamed(fn) != R.Batch || token.IsExported(fn.Name()) {
+			continue
+		}
+		for _, b := range fn.Blocks {
+			for _, in := range b.Instrs {
+				if directReset(in) {
+					resetFns[fn] = true
+				}
+			}
+		}
+	}
+	isResetEvent := func(in ssa.Instruction) bool {
+		if directReset(in) {
+			return true
+		}
+		c, ok := in.(*ssa.Call)
+		return ok && resetFns[c.Common().StaticCallee()]
+	}
+	pureWriters := map[*ssa.Function]bool{}
+	for _, fn := range p.LibFuncs() {
+		if core.RecvNamed(fn) != R.Batch || token.IsExported(fn.Name()) {
+			continue
+		}
+		w, r := false, false
+		for _, b := range fn.Blocks {
+			for _, in := range b.Instrs {
+				if c, ok := in.(*ssa.Call); ok {
+					if f := c.Common().StaticCallee(); f != nil && core.RecvNamed(f) == R.DataFile && strings.Contains(f.Name(), "Staged") {
+						w = true
+					}
+				}
+				if isResetEvent(in) {
+					r = true
+				}
+			}
+		}
+		if w && !r {
+			pureWriters[fn] = true
+		}
+	}
 	for _, fn := range p.LibFuncs() {
 		if core.RecvNamed(fn) != R.Batch {
 			continue
@@ -1301,6 +1354,9 @@ func bt5SizeBookkeeping(p *core.Prog, rep *core.Report) {
 			for _, in := range b.Instrs {
 				if c, ok := in.(*ssa.Call); ok {
 					if f := c.Common().StaticCallee(); f != nil && core.RecvNamed(f) == R.DataFile && strings.Contains(f.Name(), "Staged") {
+						writes = true
+					}
+					if pureWriters[c.Common().StaticCallee()] {
 						writes = true
 					}
 				}
@@ -1326,7 +1382,7 @@ func bt5SizeBookkeeping(p *core.Prog, rep *core.Report) {
 				rep.Check(ok, "BT5", "reset-clears-size:"+core.FuncKey(fn), "a reset of the staged slice also zeroes the staged size", p.InstrPos(in), "the staged slice is reset at "+p.InstrPos(in)+" but Batch."+sz.Name()+" keeps its value up to the return at "+esc, true)
 			}
 		}
-		if writes {
+		if writes && !pureWriters[fn] {
 			// success returns are reached only after a reset of the staged slice
 			var bad []string
 			for _, r := range core.Returns(fn) {
@@ -1337,10 +1393,8 @@ func bt5SizeBookkeeping(p *core.Prog, rep *core.Report) {
 				found := false
 				for _, b := range fn.Blocks {
 					for _, in := range b.Instrs {
-						if f, _, val := core.StoreField(in); f == R.BatchStaged {
-							if _, isCall := val.(*ssa.Call); !isCall && before(in, r) {
-								found = true
-							}
+						if isResetEvent(in) && before(in, r) {
+							found = true
 						}
 					}
 				}
